@@ -578,7 +578,7 @@ def run(chk):
     if not idx_seen and not fb_miss:
         chk.notes.append("stale_known_finding: in-edge-single-index not exhibited in this run")
 
-    if tie_broken and not found_concrete:
+    if tie_broken and not (found_concrete and chk.has_new_concrete()):
         key, what, path = tie_broken[0]
         rd = chk.replay_dir(key)
         with open(os.path.join(rd, "replay.txt"), "w") as f:
